@@ -15,6 +15,7 @@ func init() {
 		ID:   "C16",
 		Rule: "one case = (payloader, input length, MTU) or (depacketizer input, marker); non-trivial = input non-empty (payloaders: at least one fragment returned)",
 		Assumptions: []string{
+			"content dictionary: inputs that begin with one of 13 well-known container / codec signatures (OpusHead, OpusTags, OggS, RIFF, ...), 0 / 1 / 11 / 200 bytes behind it, MTU {1,7,100,1200}",
 			"payload content is position dependent (byte(i*7+seed)); the payloaders never branch on content",
 			"OpusPacket and OpusPayloader additionally see EVERY byte string of 1-3 bytes (content must not matter) and 4-6 byte strings over 6 symbols; G711/G722 additionally split 65535/65536/65537/70000/200000 bytes at MTU {1,255,256,1200,65535}",
 			"other lengths above 10000 and MTUs outside the stated alphabets are outside the bound",
@@ -25,6 +26,7 @@ func init() {
 			{Name: "opus-depacketizer", Tiers: "qt", ShardDepth: 1, Run: c16OpusPacket},
 			{Name: "opus-depacketizer-all-strings-up-to-3-bytes", Tiers: "qt", ShardDepth: 1, Run: c16OpusAll},
 			{Name: "split-beyond-16-bit-lengths", Tiers: "qt", ShardDepth: 2, Run: c16Huge},
+			{Name: "well-known-content-prefixes", Tiers: "qt", ShardDepth: 2, Run: c16Magic},
 		},
 	})
 }
@@ -69,10 +71,34 @@ func c16Long(c *mc.Ctx) {
 	c16Split(c, n, mtu)
 }
 
+// c16Prefix, when set, replaces the first bytes of the generated input.
+var c16Prefix []byte
+
+// container and codec signatures an audio payload is sometimes (wrongly) tested for
+var c16Magics = []string{"OpusHead", "OpusTags", "OggS", "RIFF", "WAVE", "fLaC", "ID3", "\xff\xfb", ".snd", "FORM", "\x00\x00\x00\x01", "RTP", "\x80\x60"}
+
+// c16Magic: payloads that begin with a well-known signature are payload bytes like any other.
+func c16Magic(c *mc.Ctx) {
+	m := []byte(mc.From(c, c16Magics))
+	n := len(m) + mc.From(c, []int{0, 1, 11, 200})
+	mtu := mc.From(c, []int{1, 7, 100, 1200})
+	c16Prefix = m
+	defer func() { c16Prefix = nil }()
+	c16Split(c, n, mtu)
+	in := fill(n, 3)
+	copy(in, m)
+	var p codecs.OpusPacket
+	out, err := p.Unmarshal(clone(in))
+	if err != nil || !bytes.Equal(out, in) || !bytes.Equal(p.Payload, in) {
+		c.Failf("opus-unchanged", "OpusPacket.Unmarshal(%s) = %s, %v", hx(in), hx(out), err)
+	}
+}
+
 func c16Split(c *mc.Ctx, n, mtu int) {
 	var in []byte
 	if n >= 0 {
 		in = fill(n, 3)
+		copy(in, c16Prefix)
 	}
 	c.Notef("len=%d mtu=%d", n, mtu)
 	for pi, pl := range []rtp.Payloader{&codecs.G711Payloader{}, &codecs.G722Payloader{}} {
